@@ -53,6 +53,7 @@ func runC07(c *Ctx) {
 	c.rule("V6", "a method of the filesystem that is handed an already opened file consults the closed guard before it touches that handle: a handle taken before Close() serves nothing afterwards", 4)
 	c.rule("V7", "where the guard found the filesystem closed, the error returned is the guard's own ('failed condition'), not a fresh error of another kind", 30)
 	c.rule("Z5", "legal names are not refused: the zip-slip tests of the extraction look for path elements equal to \"..\", never for the substring (a..b.txt, ..leading and trailing.. are names the zip side produces)", 1)
+	c.rule("Z6", "extraction: the name of an entry — a path relative to the archive — is never handed to the filesystem as it is (it would be resolved against the working directory of the process); the filesystem only sees the sanitised extraction path", 1)
 	c.rule("Z4", "unzip: every way round the entry loop that creates an entry appends its path (or the paths of the nested extraction) to the list returned, in that same iteration", 2)
 	c.rule("Z2", "unzip: file times restored from the entry's info after the copy; directory infos recorded and restored after the loop before the successful return", 3)
 
@@ -63,6 +64,7 @@ func runC07(c *Ctx) {
 	c.c07ZipWalker()
 	c.c07UnzipTimes()
 	c.c07NamesVerbatim()
+	c.c07NoProbeOfEntryNames()
 	c.c07Listed()
 	c.c07Handles()
 	c.c07DotsInNames()
@@ -916,4 +918,64 @@ func (c *Ctx) c07UnzipTimes() {
 
 func isZipFileInfo(n string) bool {
 	return strings.HasPrefix(n, "(*archive/zip.") && strings.HasSuffix(n, ").FileInfo")
+}
+
+// c07NoProbeOfEntryNames (Z6): "the list of extracted paths returned names exactly the entries created". What is listed is
+// decided per entry; a decision that asks the filesystem about the entry's own name (IsZip(entry.Name), Exists(entry.Name))
+// asks about a path relative to the working directory of the process — a same-named file lying there changes the answer,
+// and with it the list and the count. In the extraction call graph every string handed to a method of the filesystem that
+// derives from zip.FileHeader.Name derives from it through the sanitiser only.
+func (c *Ctx) c07NoProbeOfEntryNames() {
+	unzip := c.fn(fsPkgRel, "(*VFS).unzip")
+	reach := c.reachable([]*ssa.Function{unzip}, false, func(g *ssa.Function) bool {
+		if !inPkg(fsPkgRel)(g) {
+			return false
+		}
+		o := outermost(g)
+		return o.Object() == nil || !o.Object().Exported()
+	})
+	var fns []*ssa.Function
+	for g := range reach {
+		fns = append(fns, g)
+	}
+	sortFuncs(fns)
+	n := 0
+	bad := ""
+	for _, g := range fns {
+		allInstrs(g, func(in ssa.Instruction) {
+			cl, ok := in.(*ssa.Call)
+			if !ok {
+				return
+			}
+			name, args, isFs := fsMethodCall(in)
+			if !isFs {
+				// unexported methods of the filesystem (isZipWithContext, …)
+				h := staticCallee(&cl.Call)
+				if h == nil || h.Signature.Recv() == nil || !inPkg(fsPkgRel)(h) || !strings.Contains(h.Signature.Recv().Type().String(), "VFS") {
+					return
+				}
+				name, args = h.Name(), cl.Call.Args[1:]
+			}
+			for _, a := range args {
+				if b, isB := a.Type().Underlying().(*types.Basic); !isB || b.Kind() != types.String {
+					continue
+				}
+				raw := false
+				for _, l := range sources(a, deriveOpts{through: func(n string) bool {
+					return !strings.HasSuffix(n, ".sanitiseZipExtractPath") && (strings.HasPrefix(n, "path/filepath.") || strings.HasPrefix(n, "strings.") || strings.HasSuffix(n, ".determineUnzippedFilepath"))
+				}}) {
+					if _, isName := fieldLoad(l, "FileHeader", "Name"); isName {
+						raw = true
+					}
+				}
+				n++
+				if raw {
+					bad = c.ipos(in) + " (" + name + ")"
+				}
+			}
+		})
+	}
+	c.Extra["fs_path_arguments_in_extraction"] = n
+	c.check(bad == "" && n > 0, "Z6", fname(unzip)+"/entry-names-not-probed", c.pos(unzip.Pos()), "no method of the filesystem is handed an entry's own name",
+		"the entry's own name is handed to the filesystem at "+bad+": it is a path relative to the archive, which the filesystem resolves against the working directory of the process — a file of that name lying there changes what the extraction lists and counts")
 }
